@@ -54,7 +54,10 @@ class RealStore:
             elif kind == "buffer":
                 if via_edge:
                     from factorysimpy.edges.buffer import Buffer
-                    self.edge = Buffer(self.env, "B", capacity=cfg["cap"], delay=self._next_delay, mode=cfg["mode"])
+                    # the delay source is a callable, or (cfg["delay_kind"] = "generator") a generator object: both are
+                    # documented forms of Buffer(delay=...)
+                    dsrc = self._delay_gen() if cfg.get("delay_kind") == "generator" else self._next_delay
+                    self.edge = Buffer(self.env, "B", capacity=cfg["cap"], delay=dsrc, mode=cfg["mode"])
                     self.edge.src_node = self.edge.dest_node = object()
                     self.store = self.edge.inbuiltstore
                 else:
@@ -90,6 +93,10 @@ class RealStore:
     def _next_delay(self):
         self.delay_calls += 1
         return self.delay_plan.pop(0) if self.delay_plan else 0
+
+    def _delay_gen(self):
+        while True:
+            yield self._next_delay()
 
     # ------------------------------------------------------------------ projection (white box)
     def _present(self):
